@@ -190,6 +190,11 @@ def kv(r):
     return dict(x.split("=", 1) for x in r.split()[1:])
 
 
+def pn_runs(hexjson):
+    """import runs projected on (path, name): which comment the re-parse attaches to a spec is layout"""
+    return [[(s["p"], s["n"]) for s in run] for run in json.loads(unhx(hexjson))]
+
+
 def intern_runs(run_sets):
     """order-preserving interning of paths / names / comments (Go compares strings bytewise)"""
     strs = set()
@@ -257,7 +262,7 @@ def judge(c):
         c.fail.append(("tree-differs", ""))
     if a["ncom"] != b["ncom"] or a["com"] != b["com"]:
         c.fail.append(("comment-lost-or-changed", "%s -> %s comments" % (a["ncom"], b["ncom"])))
-    elif a["runs"] == b["runs"]:
+    elif pn_runs(a["runs"]) == pn_runs(b["runs"]):
         if a["ordered"] != b["ordered"]:
             c.fail.append(("comment-order-changed", ""))
         elif a["anchors"] != b["anchors"]:
@@ -309,7 +314,7 @@ def run(ctx):
                 if kind == "zh" and lang == "wa":
                     continue
                 v = (b[:o] + text.encode() + b[o:]).decode()
-                cases.append(Case(lang, v, "matrix", site_class(prev, t), {"comment": kind, "prev": prev, "next": t}))
+                cases.append(Case(lang, v, "matrix", site_class(prev, t), {"comment": kind, "prev": prev, "next": t, "gap": i}))
     # C. generated programs: redundant syntax, import blocks, untidy layout
     n_gen = 40 if quick else 600
     gen_cases = []
@@ -322,13 +327,16 @@ def run(ctx):
             if lang == "wa":
                 clean = V.struct_spelling(r2, clean)
             with_imports = rng.random() < 0.5
+            body_only = clean
+            protect = 0
             if with_imports:
-                ib, _ = V.import_block(r2, lang)
+                ib, has_alias = V.import_block(r2, lang)
                 clean = ib + clean
+                protect = ib.count("\n") + 1 if has_alias else 0
             level = rng.choice([0.0, 0.1, 0.25, 0.5])
-            edits = V.plan_edits(r2, clean, lang, level)
+            edits = V.plan_edits(r2, clean, lang, level, protect)
             c = Case(lang, V.apply_edits(clean, edits), "gen", "gen%d" % i,
-                     {"clean": clean, "edits": edits, "features": feats, "imports": with_imports, "level": level, "decls_seed": seed})
+                     {"clean": clean, "body_only": body_only, "edits": edits, "features": feats, "imports": with_imports, "level": level, "decls_seed": seed})
             cases.append(c)
             gen_cases.append(c)
     # hand-written import blocks (sorting / de-duplication / comments)
@@ -361,7 +369,10 @@ def run(ctx):
             for k, r in enumerate(ia):
                 mops.append("sort " + r)
                 back.append((c, "sort", k, ib[k] if k < len(ib) else "<missing>"))
-            mops.append("asteq %s %s %s %s" % (";".join(ia) or "-", c.a["rest"], ";".join(ib) or "-", c.b["rest"]))
+            # astEq is asked about the runs projected on (path, name): which comment group the re-parse
+            # attaches to a spec is layout (the comments themselves are compared as a list)
+            z = lambda rs: ";".join(",".join(x.rsplit(".", 1)[0] + ".0" for x in r.split(",")) if r != "-" else "-" for r in rs) or "-"
+            mops.append("asteq %s %s %s %s" % (z(ia), c.a["rest"], z(ib), c.b["rest"]))
             back.append((c, "asteq", len(ia) == len(ib), None))
         _, mout, _ = ctx.run_bin(model, input_text="\n".join(mops) + "\n", timeout=900)
         ml = mout.splitlines()
@@ -371,7 +382,8 @@ def run(ctx):
             ctx.corr["lines"] += len(mops)
             for (c, what, k, want), got, op in zip(back, ml, mops):
                 if what == "sort":
-                    if got != want:
+                    proj = lambda r: [x.rsplit(".", 1)[0] for x in r.split(",")] if r not in ("-", "<missing>") else r
+                    if proj(got) != proj(want):
                         # the real SortImports (through FormatCode) and the model's sortImports disagree on this run
                         c.fail.append(("imports-differ-from-sorted-source-run", "run %d: source %s formatted %s" % (k, c.runs[0][k], c.runs[1][k] if k < len(c.runs[1]) else None)))
                         ctx.corr["diffs"] += 1
@@ -387,7 +399,8 @@ def run(ctx):
     # ------------------------------------------------------------------ WAT of source vs formatted source
     wat_cases = []
     for c in gen_cases:
-        if not c.fail and not getattr(c, "unparsable", True) and not c.meta["imports"] and c.f1.startswith("ok"):
+        if not c.fail and not getattr(c, "unparsable", True) and not c.meta["imports"] and c.f1.startswith("ok") \
+                and unhx(c.f1.split()[1]) != c.src:
             wat_cases.append(c)
     wat_cases = wat_cases[: (8 if quick else 120)]
     for rel in ("waroot/examples/hello/hello.wa", "waroot/examples/wz/hello/hello.wz"):
@@ -405,10 +418,15 @@ def run(ctx):
     for k, c in enumerate(wat_cases):
         wa_, wb_ = wres[2 * k], wres[2 * k + 1]
         if wa_.startswith("ok") and wb_.startswith("ok"):
-            if wa_ == wb_:
-                dist["wat_equal"] += 1
+            ka, kb = kv(wa_), kv(wb_)
+            if ka["exact"] == kb["exact"]:
+                dist["wat_byte_equal"] += 1
+            if ka["skel"] != kb["skel"]:
+                c.fail.append(("wat-instructions-differ", "%s vs %s" % (ka["skel"], kb["skel"])))
+            elif ka["run"] != kb["run"]:
+                c.fail.append(("run-output-differs", "%s vs %s" % (ka["run"], kb["run"])))
             else:
-                c.fail.append(("wat-differs", "%s vs %s" % (wa_, wb_)))
+                dist["wat_equal_modulo_embedded_positions_and_same_output"] += 1
         elif wa_.startswith("ok") != wb_.startswith("ok"):
             c.fail.append(("build-status-differs", "source %s | formatted %s" % (wa_[:80], wb_[:80])))
         else:
@@ -423,15 +441,28 @@ def run(ctx):
                       {"lang": c.lang, "kind": c.kind, "failures": c.fail, "source": c.src, "formatted": out1, "meta": {k: v for k, v in c.meta.items() if k != "edits"}})
 
     isolate = []
+    line_variant = {(c.lang, c.meta["gap"]): c for c in cases if c.kind == "matrix" and c.meta["comment"] == "line"}
     for c in cases:
         if not c.fail:
             continue
+        if c.kind == "matrix" and c.meta["comment"] == "zh":
+            # a `注:` comment where the same `//` comment behaves differently: the Chinese line-comment form itself
+            lv = line_variant.get((c.lang, c.meta["gap"]))
+            kz, kl = {f[0] for f in c.fail}, ({f[0] for f in lv.fail} if lv is not None else set())
+            if kz != kl:
+                worst = [k for k in ("output-does-not-parse", "tree-differs", "comment-lost-or-changed", "not-idempotent") if k in kz] or sorted(kz)
+                report(c, "wz:comment:chinese-line-comment:%s" % worst[0],
+                       " (a `注:` comment between `%s` and `%s`; the same `//` comment gives %s)" % (c.meta["prev"], c.meta["next"], sorted(kl) or "no failure"))
+                continue
         if c.kind == "matrix":
             report(c, "%s:comment:%s" % (c.lang, c.key_hint), " (a %s comment between `%s` and `%s`)" % (c.meta["comment"], c.meta["prev"], c.meta["next"]))
         elif c.kind == "gen":
             isolate.append(c)
-        elif c.kind == "imports" or any(f[0].startswith("imports") for f in c.fail):
+        elif c.kind == "imports" or any(f[0].startswith("imports") or f[0] == "trees-not-astEq" for f in c.fail):
             report(c, "%s:imports:%s" % (c.lang, import_cause(c)))
+        elif c.kind == "corpus":
+            # corpus file names carry the root-cause key: <lang>__<family>__<cause>--<free text>.<lang>
+            report(c, c.key_hint.rsplit(".", 1)[0].split("--")[0].replace("__", ":"))
         else:
             report(c, "%s:%s:%s" % (c.lang, c.kind, c.fail[0][0]))
     # generated inputs: which single edit is responsible?
@@ -441,6 +472,7 @@ def run(ctx):
         layout = {e["id"] for e in ed if e["cat"] == "layout"}
         sub.append(Case(c.lang, V.apply_edits(c.meta["clean"], ed, set()), "iso", "clean", {"of": c, "what": "clean"}))
         sub.append(Case(c.lang, V.apply_edits(c.meta["clean"], ed, layout), "iso", "layout", {"of": c, "what": "layout"}))
+        sub.append(Case(c.lang, c.meta["body_only"], "iso", "body", {"of": c, "what": "body"}))
         for e in ed:
             if e["cat"] == "comment":
                 sub.append(Case(c.lang, V.apply_edits(c.meta["clean"], ed, {e["id"]}), "iso", "one", {"of": c, "what": "comment", "edit": e}))
@@ -471,8 +503,13 @@ def run(ctx):
             ss = by[id(c)]
             clean = [s for s in ss if s.meta["what"] == "clean"][0]
             lay = [s for s in ss if s.meta["what"] == "layout"][0]
-            if any(f[0].startswith("imports") for f in c.fail):
+            if any(f[0].startswith("imports") or f[0] == "trees-not-astEq" for f in c.fail):
                 report(c, "%s:imports:%s" % (c.lang, import_cause(c)))
+                continue
+            body = [s for s in ss if s.meta["what"] == "body"][0]
+            if clean.fail and not body.fail:
+                c.fail = clean.fail
+                report(c, "%s:imports:%s" % (c.lang, import_cause(c)), " (the import block alone, without the inserted comments)")
                 continue
             if clean.fail:
                 report(c, "%s:syntax:%s" % (c.lang, clean.fail[0][0]), " (already without comments and layout changes)")
